@@ -504,7 +504,8 @@ class Ctx:
                               indent=1, default=str)
                 tail = '' if v['failing_input_found'] else ' no-failing-input-found'
                 print('VIOLATION property=%s replay=%s%s' % (pid, path, tail))
-                print('  %s: %s' % (v['kind'], v['what']))
+                w = v['what']
+                print('  %s: %s' % (v['kind'], w if len(w) < 600 else w[:300] + ' ... ' + w[-200:]))
                 shown += 1
             if nviol > shown:
                 print('  (+%d more violations of %s not written)' % (nviol - shown, pid))
